@@ -99,7 +99,9 @@ func genDyn(t *rapid.T, fam string) string {
 		n = fmt.Sprintf("%slqs%dt%d", rapid.SampledFrom([]string{"mult", "add", "div"}).Draw(t, "arith"), size(), rapid.IntRange(1, 3).Draw(t, "t"))
 	}
 	// the name grammars are unanchored regular expressions: a decorated name belongs to the family too
-	if rapid.IntRange(0, 19).Draw(t, "decorate") == 0 {
+	// (not for the linear quantizer: the trailing text ends up in the range index, "1b" is no number and
+	// the creation is refused with "Invalid range for index 0" by every front-end alike)
+	if fam != "lqs" && rapid.IntRange(0, 19).Draw(t, "decorate") == 0 {
 		n += rapid.SampledFrom([]string{"b", "_v2", "x"}).Draw(t, "suffix")
 	}
 	return n
@@ -107,10 +109,15 @@ func genDyn(t *rapid.T, fam string) string {
 
 var dynFams = []string{"rsets", "call", "stack", "fps", "fxps", "lqs"}
 
-func genDynOps(t *rapid.T, p int) []string {
+// genDynOps draws at most one name per family. Machines that will go through HDL generation get no
+// fxp opcode (see needsExternalFiles).
+func genDynOps(t *rapid.T, p int, hdl bool) []string {
 	var r []string
 	for _, f := range dynFams {
-		if rapid.IntRange(0, 99).Draw(t, "dyn_"+f) < p {
+		if hdl && f == "fxps" {
+			continue
+		}
+		if rapid.IntRange(1, p).Draw(t, "dyn_"+f) == p { // rapid favours the low end of a range: at most 1 in p
 			r = append(r, genDyn(t, f))
 		}
 	}
@@ -157,7 +164,7 @@ func genWord(t *rapid.T, d *Dom) {
 }
 
 // genDom draws a domain; kinds lists the shared object kinds its processors are attached to.
-func genDom(t *rapid.T, kinds []string) Dom {
+func genDom(t *rapid.T, kinds []string, hdl bool) Dom {
 	var d Dom
 	d.Mode = rapid.SampledFrom([]string{"ha", "vn", "hy"}).Draw(t, "mode")
 	d.R = rapid.IntRange(0, 3).Draw(t, "R")
@@ -178,7 +185,7 @@ func genDom(t *rapid.T, kinds []string) Dom {
 			d.Ops = append(d.Ops, rapid.SampledFrom(soOps[k]).Draw(t, "soop"))
 		}
 	}
-	d.Ops = append(d.Ops, genDynOps(t, 25)...)
+	d.Ops = append(d.Ops, genDynOps(t, 4, hdl)...)
 	sort.Strings(d.Ops)
 	d.Ops = uniq(d.Ops)
 	genWord(t, &d)
@@ -205,22 +212,43 @@ func uniq(xs []string) []string {
 
 func kindOf(so string) string { return strings.SplitN(so, ":", 2)[0] }
 
+// genSOs draws shared objects and their attachments. Two implicit preconditions of the HDL generators
+// are respected by construction (found from panics; see the report):
+//   - a vtextmem indexes its boxes by the id of the attached processor (shr_vtextmem.go:318) and by the
+//     rank of the attachment (shr_vtextmem.go:196): it is only attached to processors below its box count;
+//   - a barrier that goes through Write_verilog is attached to at least one processor (shr_barrier.go:100
+//     cuts the trailing " | " of an empty list).
 func genSOs(t *rapid.T, c *Case, maxSO int) {
 	np := len(c.Procs)
 	for i, n := 0, rapid.IntRange(0, maxSO).Draw(t, "nso"); i < n; i++ {
-		c.SOs = append(c.SOs, genSO(t, np))
-		if np == 0 {
+		so := genSO(t, np)
+		c.SOs = append(c.SOs, so)
+		limit := np
+		if kindOf(so) == "vtextmem" {
+			limit = min(np, (strings.Count(so, ":"))/5)
+		}
+		if limit == 0 {
 			continue
 		}
 		// attached to 1..3 processors (now and then to none)
-		k := rapid.IntRange(0, min(3, np)).Draw(t, "nattach")
-		if k == 0 && rapid.IntRange(0, 3).Draw(t, "detached") != 0 {
+		k := rapid.IntRange(0, min(3, limit)).Draw(t, "nattach")
+		if k == 0 && (rapid.IntRange(0, 3).Draw(t, "detached") != 0 || (c.HDL && kindOf(so) == "barrier")) {
 			k = 1
 		}
-		perm := rapid.Permutation(seq(np)).Draw(t, "attach")
+		perm := rapid.Permutation(seq(limit)).Draw(t, "attach")
 		for _, p := range perm[:k] {
 			c.SOLinks = append(c.SOLinks, [2]int{p, i})
 		}
+	}
+	if c.HDL && np == 0 {
+		// nothing to attach a barrier to
+		var keep []string
+		for _, so := range c.SOs {
+			if kindOf(so) != "barrier" {
+				keep = append(keep, so)
+			}
+		}
+		c.SOs = keep
 	}
 }
 
@@ -232,8 +260,8 @@ func seq(n int) []int {
 	return r
 }
 
-func genBM(t *rapid.T) Case {
-	c := Case{Kind: "bm"}
+func genBM(t *rapid.T, hdl bool) Case {
+	c := Case{Kind: "bm", HDL: hdl}
 	c.Rsize = genRsize(t)
 	nd := rapid.IntRange(1, 3).Draw(t, "ndoms")
 	for i, n := 0, rapid.IntRange(0, 4).Draw(t, "nprocs"); i < n; i++ {
@@ -248,7 +276,7 @@ func genBM(t *rapid.T) Case {
 		kinds[d] = append(kinds[d], kindOf(c.SOs[l[1]]))
 	}
 	for i := 0; i < nd; i++ {
-		c.Doms = append(c.Doms, genDom(t, kinds[i]))
+		c.Doms = append(c.Doms, genDom(t, kinds[i], hdl))
 	}
 	// bonds: every sink picks a source or stays unconnected; a source may feed several sinks
 	var sinks, sources []string
@@ -289,8 +317,8 @@ func genRsize(t *rapid.T) int {
 	return rapid.SampledFrom([]int{8, 16, 32, 64}).Draw(t, "rsize")
 }
 
-func genMachine(t *rapid.T) Case {
-	c := Case{Kind: "machine", Rsize: genRsize(t)}
+func genMachine(t *rapid.T, hdl bool) Case {
+	c := Case{Kind: "machine", Rsize: genRsize(t), HDL: hdl}
 	var sos []string
 	var kinds []string
 	for i, n := 0, rapid.IntRange(0, 2).Draw(t, "nso"); i < n; i++ {
@@ -298,19 +326,20 @@ func genMachine(t *rapid.T) Case {
 		sos = append(sos, so)
 		kinds = append(kinds, kindOf(so))
 	}
-	d := genDom(t, kinds)
+	d := genDom(t, kinds, hdl)
 	d.Constraints = strings.Join(sos, ",")
 	c.Doms = []Dom{d}
 	return c
 }
 
-func genHS(t *rapid.T) Case {
+func genHS(t *rapid.T, hdl bool) Case {
 	spec := gen.HandshakeMachine(t, gen.HSOptions{MaxProcs: 3, MaxPad: 2})
 	c := FromSpec(spec)
+	c.HDL = hdl
 	for i := range c.Doms {
 		d := &c.Doms[i]
 		// decorations that do not change the behaviour: opcodes the program does not use, a wider ROM word, threads
-		d.Ops = append(d.Ops, genDynOps(t, 20)...)
+		d.Ops = append(d.Ops, genDynOps(t, 4, hdl)...)
 		sort.Strings(d.Ops)
 		d.Ops = uniq(d.Ops)
 		genWord(t, d)
@@ -333,15 +362,16 @@ func genHS(t *rapid.T) Case {
 func genCase(kind string, hdlOneIn int) func(t *rapid.T) Case {
 	return func(t *rapid.T) Case {
 		var c Case
+		hdl := rapid.IntRange(1, hdlOneIn).Draw(t, "hdl") == hdlOneIn
 		switch kind {
 		case "machine":
-			c = genMachine(t)
+			c = genMachine(t, hdl)
 		case "bm":
-			c = genBM(t)
+			c = genBM(t, hdl)
 		default:
-			c = genHS(t)
+			c = genHS(t, hdl)
 		}
-		c.HDL = rapid.IntRange(1, hdlOneIn).Draw(t, "hdl") == 1
+		c.HDL = hdl
 		c.Fresh = rapid.Bool().Draw(t, "fresh")
 		c.Perturb = rapid.IntRange(0, 1<<20).Draw(t, "perturb")
 		return c
@@ -747,16 +777,16 @@ func prop(c Case) pbt.Outcome {
 			labels["hdl-panic:"+panicClass(err)] = true
 			return out(false, nil, "hdl-precondition")
 		}
-		fx2, err := hdl(x)
-		if err != nil || diffFiles(fx, fx2) != "" {
-			labels["hdl-nondeterministic"] = true
-			return out(false, nil, "hdl-nondeterministic")
-		}
 		fy, err := hdl(y)
 		if err != nil {
 			return out(nt, pbt.Failf("verilog-differs", "HDL generation works for x and fails for load(save(x)): %v\nsaved: %s", err, j1), "")
 		}
 		if d := diffFiles(fx, fy); d != "" {
+			// a generator that is not a function of the machine is not this property's business
+			if fx2, err := hdl(x); err != nil || diffFiles(fx, fx2) != "" {
+				labels["hdl-nondeterministic"] = true
+				return out(false, nil, "hdl-nondeterministic")
+			}
 			return out(nt, pbt.Failf("verilog-differs", "Verilog of load(save(x)) differs: %s\nsaved: %s", d, j1), "")
 		}
 		labels[fmt.Sprintf("hdl-files:%d", min(len(fx)/4*4, 16))] = true
